@@ -773,6 +773,30 @@ func r175(c *an.Ctx) {
 					}
 				}
 			}
+			if !(okAfter && kept) {
+				// the first failure kept as separate values (`firstErr, firstErrIndex = response.err, response.i` under
+				// `firstErr == nil`): every value that can arrive in the results is a field of a response, taken under a
+				// condition that says nothing was recorded yet
+				keptField := func(v ssa.Value, field string) bool {
+					n := 0
+					for _, lf := range an.PhiLeaves(v) {
+						if _, isC := lf.Val.(*ssa.Const); isC {
+							continue // the zero value it starts with
+						}
+						_, _, f, isF := an.FieldOf(lf.Val)
+						if !isF || f != field || !firstFailureGuard(lf.Conds) {
+							return false
+						}
+						n++
+					}
+					return n > 0
+				}
+				for _, r := range an.Returns(fn) {
+					if len(r.Results) == 3 && keptField(r.Results[2], "err") && keptField(r.Results[1], "i") {
+						okAfter, kept = true, true
+					}
+				}
+			}
 			c.Check(okAfter && kept, rule, name+"|all failed: the first failing response's error and index", fn.Pos(), "", "when every member fails ExecuteFast does not return the first error observed with its member index")
 		}
 	}
